@@ -86,6 +86,7 @@ class Oracle:
         self.memo = {}
         self.stats = dict(objects=0, positions=0, members=0, optionals=0, literals=0, anys=0, null_dropped=0)
         self.routed = {}
+        self.certain = {}
         self._bykey_cache = {}
 
     # ---- field lookup by original key
@@ -178,36 +179,41 @@ class Oracle:
         return False
 
     # ---- routing
+    # An object is routed to every union member that accepts it (lenient; used for the positive, justifying
+    # rules).  A routing is *certain* when on its whole path every union had exactly one accepting member; the
+    # negative rule (Any only where every container was empty) looks at certain routings only.
     def route(self, root, samples):
-        work = [(root, s) for s in samples]
+        work = [(root, s, True) for s in samples]
         while work:
-            cls, o = work.pop()
+            cls, o, certain = work.pop()
             d = self.routed.setdefault(cls, {})
-            if id(o) in d:
+            c = self.certain.setdefault(cls, {})
+            if id(o) in d and (c[id(o)] or not certain):
                 continue
             d[id(o)] = o
+            c[id(o)] = c.get(id(o), False) or certain
             bykey, _ = self.bykey(cls)
             for key, v in o.items():
                 f = bykey.get(key)
                 if f is not None:
-                    self.descend(v, f.ann, work)
+                    self.descend(v, f.ann, work, certain)
 
-    def descend(self, v, T, work):
+    def descend(self, v, T, work, certain):
         if v is None or T is Any:
             return
         org = typing.get_origin(T)
         if org is Union:
-            for a in typing.get_args(T):
-                if a is not NoneT and self.inh(v, a):
-                    self.descend(v, a, work)
+            acc = [a for a in typing.get_args(T) if a is not NoneT and self.inh(v, a)]
+            for a in acc:
+                self.descend(v, a, work, certain and len(acc) == 1)
         elif org in (list, List) and type(v) is list:
             for e in v:
-                self.descend(e, typing.get_args(T)[0], work)
+                self.descend(e, typing.get_args(T)[0], work, certain)
         elif org in (dict, Dict) and type(v) is dict:
             for e in v.values():
-                self.descend(e, typing.get_args(T)[1], work)
+                self.descend(e, typing.get_args(T)[1], work, certain)
         elif self.is_model(T) and type(v) is dict and self.why_not(T, v) is None:
-            work.append((T, v))
+            work.append((T, v, certain))
 
     # ---- the C01 structural verdict
     def acceptance(self, roots_samples):
@@ -288,14 +294,16 @@ class Oracle:
     def tightness(self, check_members=True):
         errs = []
         for cls, objs in self.routed.items():
-            objs = list(objs.values())
+            cert = self.certain[cls]
+            items = [(o, cert[i]) for i, o in objs.items()]
             bykey, _ = self.bykey(cls)
             for key, f in bykey.items():
-                vals = [o.get(key, MISSING) for o in objs]
-                self._tight(f.ann, vals, f"{cls.__name__}.{key}", errs, field=True, check_members=check_members)
+                vals = [(o.get(key, MISSING), c) for o, c in items]
+                self._tight(f.ann, vals, f"{cls.__name__}.{key}", errs, check_members=check_members)
         return errs
 
-    def _tight(self, T, vals, where, errs, field=False, check_members=True):
+    def _tight(self, T, cvals, where, errs, check_members=True):
+        """cvals: list of (value, certain)"""
         self.stats["positions"] += 1
         if is_anyish(T):
             self.stats["anys"] += 1
@@ -304,22 +312,25 @@ class Oracle:
         opt, members = split_union(T)
         if opt:
             self.stats["optionals"] += 1
-            if not any(v is None or v is MISSING for v in vals):
+            if not any(v is None or v is MISSING for v, _ in cvals):
                 errs.append(("optional-unjustified", where,
-                             f"{tstr(T)} but no routed object lacks the key or holds null ({len(vals)} values)", None))
-        vals = [v for v in vals if v is not None and v is not MISSING]
+                             f"{tstr(T)} but no routed object lacks the key or holds null ({len(cvals)} values)", None))
+        cvals = [(v, c) for v, c in cvals if v is not None and v is not MISSING]
+        vals = [v for v, _ in cvals]
+        accepted_by = {id(v): [M for M in members if self.inh(v, M)] for v in vals}
         for M in members:
             self.stats["members"] += 1
-            b = [v for v in vals if self.inh(v, M)]
+            b = [(v, c and len(accepted_by[id(v)]) == 1) for v, c in cvals if any(M is x for x in accepted_by[id(v)])]
+            bv = [v for v, _ in b]
             org = typing.get_origin(M)
             if check_members:
-                ok = bool(b)
+                ok = bool(bv)
                 why = "no routed value inhabits it"
                 if M is float:
-                    ok = any(type(v) is float for v in b)
+                    ok = any(type(v) is float for v in bv)
                     why = "no float value routed here (ints alone do not justify float)"
                 elif is_pseudo(M):
-                    ok = any(self.fm(v) is M for v in b)
+                    ok = any(self.fm(v) is M for v in bv)
                     why = "no routed string is detected as this pseudo-type"
                 elif org is Literal:
                     self.stats["literals"] += 1
@@ -329,24 +340,20 @@ class Oracle:
                     why = f"literal values {sorted(extra)!r} were not observed as plain strings here"
                 if not ok:
                     errs.append(("member-unjustified", where, f"member {tstr(M)} of {tstr(T)}: {why}; values {short(vals)}", None))
-            if org in (list, List):
-                E = typing.get_args(M)[0]
-                elems = [e for lst in b for e in lst]
+            if org in (list, List) or org in (dict, Dict):
+                E = typing.get_args(M)[0 if org in (list, List) else 1]
+                if org in (list, List):
+                    elems = [(e, c) for lst, c in b for e in lst]
+                else:
+                    elems = [(e, c) for d, c in b for e in d.values()]
                 if is_anyish(E):
                     self.stats["anys"] += 1
-                    if any(e is not None for e in elems):
-                        errs.append(("any-unjustified", where, f"{tstr(M)} although non-null elements were observed: {short(elems)}", None))
+                    bad = [e for e, c in elems if c and e is not None]
+                    if bad:
+                        errs.append(("any-unjustified", where,
+                                     f"{tstr(M)} although non-null elements were observed in containers certainly routed here: {short(bad)}", None))
                 else:
-                    self._tight(E, elems, where + "[]", errs, check_members=check_members)
-            elif org in (dict, Dict):
-                E = typing.get_args(M)[1]
-                elems = [e for d in b for e in d.values()]
-                if is_anyish(E):
-                    self.stats["anys"] += 1
-                    if any(e is not None for e in elems):
-                        errs.append(("any-unjustified", where, f"{tstr(M)} although non-null values were observed: {short(elems)}", None))
-                else:
-                    self._tight(E, elems, where + "{}", errs, check_members=check_members)
+                    self._tight(E, elems, where + ("[]" if org in (list, List) else "{}"), errs, check_members=check_members)
 
 
 def short(v, n=160):
